@@ -105,6 +105,11 @@ type mobj struct {
 	putOK   bool // a put of this object was accepted by the shard
 	present bool // certainly still stored (see package doc)
 	forced  bool // ever force-marked (sticky, even when marked while absent)
+	// defMark: the DEFAULT mark was applied at least once. An object carrying only
+	// the REDUNDANT mark stays stored, readable and – if it is a LOCK – protective
+	// until a GC pass physically removes it (gcSince).
+	defMark bool
+	gcSince bool // a GC pass ran after the first forced mark
 	tombed  bool // a tombstone targeting it was ever accepted (sticky)
 }
 
@@ -159,13 +164,34 @@ func (w *world) locks(k key) (live, maybe bool) {
 		if expired(m.spec.Exp, w.metaEpoch) {
 			continue
 		}
-		if m.forced {
-			maybe = true
-		} else {
+		switch {
+		case !m.forced:
 			live = true
+		case !m.defMark && !m.gcSince:
+			// only redundant-marked and not yet collected: still held, still protects
+			live = true
+		default:
+			maybe = true
 		}
 	}
 	return
+}
+
+// onlyRedundantLocks: every live lock of k carries the redundant mark.
+func (w *world) onlyRedundantLocks(k key) bool {
+	any := false
+	for lk, m := range w.objs {
+		if !m.hasSpec || m.spec.Kind != uni.Lock || lk.c != k.c || m.spec.Target != k.i || !m.putOK || expired(m.spec.Exp, w.metaEpoch) {
+			continue
+		}
+		if !m.forced {
+			return false
+		}
+		if !m.defMark && !m.gcSince {
+			any = true
+		}
+	}
+	return any
 }
 
 // shadowed: k has a live lock AND a force-marked unexpired one (class of fpMultiLock).
@@ -523,12 +549,27 @@ func (w *world) actMark() {
 		w.fail("MarkGarbage(%s) failed: %v", k, err)
 	}
 	m := w.get(k)
-	m.forced = true
+	w.noteMark(m, mark)
 	if m.hasSpec && m.spec.Kind == uni.Lock {
 		w.labels["forced-mark-on-lock"] = true
+		if !m.defMark && m.putOK && !expired(m.spec.Exp, w.metaEpoch) {
+			w.labels["lock-redundant-marked"] = true
+		}
 	}
 	if live, _ := w.locks(k); live {
 		w.labels["forced-mark-on-locked"] = true
+	}
+}
+
+// noteMark records a successful MarkGarbage in the model. A default mark
+// overrides a redundant one, a redundant mark never overrides a default one.
+func (w *world) noteMark(m *mobj, mark meta.GarbageMark) {
+	if !m.forced {
+		m.gcSince = false
+	}
+	m.forced = true
+	if mark == meta.GarbageMarkDefault {
+		m.defMark = true
 	}
 }
 
@@ -536,6 +577,10 @@ func (w *world) actMark() {
 // operator dropping one LOCK object); the others must keep protecting it.
 func (w *world) actMarkLock() {
 	t := w.t
+	mark := meta.GarbageMarkDefault
+	if rapid.Bool().Draw(t, "redundant") {
+		mark = meta.GarbageMarkRedundant
+	}
 	var cands []int
 	for i := 0; i < nObj; i++ {
 		k := keyOf(i)
@@ -552,6 +597,16 @@ func (w *world) actMarkLock() {
 		}
 		if n >= 2 {
 			cands = append(cands, i)
+		}
+	}
+	if len(cands) == 0 && mark == meta.GarbageMarkRedundant && rapid.Bool().Draw(t, "single") {
+		// the policer drops a redundant copy of the only LOCK: it keeps protecting
+		// until GC removes it
+		for i := 0; i < nObj; i++ {
+			m := w.objs[keyOf(i)]
+			if m != nil && m.hasSpec && m.spec.Kind == uni.Lock && m.putOK && !m.forced && !expired(m.spec.Exp, w.metaEpoch) {
+				cands = append(cands, i)
+			}
 		}
 	}
 	if len(cands) == 0 {
@@ -586,13 +641,16 @@ func (w *world) actMarkLock() {
 		cands = []int{first.i, second.i}
 	}
 	k := keyOf(rapid.SampledFrom(cands).Draw(t, "lock"))
-	err := w.sh.MarkGarbage(uni.Cnr(k.c), []oid.ID{uni.OID(k.i)}, meta.GarbageMarkDefault)
-	w.logf("mark-garbage LOCK %s (one of several locks of o%d) -> %s", k, w.objs[k].spec.Target, errClass(err))
+	err := w.sh.MarkGarbage(uni.Cnr(k.c), []oid.ID{uni.OID(k.i)}, mark)
+	w.logf("mark-garbage LOCK %s mark=%d (a lock of o%d) -> %s", k, mark, w.objs[k].spec.Target, errClass(err))
 	if err != nil {
 		w.fail("MarkGarbage(%s) failed: %v", k, err)
 	}
-	w.objs[k].forced = true
+	w.noteMark(w.objs[k], mark)
 	w.labels["one-of-several-locks-dropped"] = true
+	if mark == meta.GarbageMarkRedundant {
+		w.labels["lock-redundant-marked"] = true
+	}
 }
 
 func (w *world) noteExpiry(before uint64) {
@@ -640,7 +698,14 @@ func (w *world) actNotify() {
 
 func (w *world) actGC() {
 	n := rapid.IntRange(1, 3).Draw(w.t, "passes")
-	// model first: what MAY be removed by these passes
+	// model first: what MAY be removed by these passes. Whatever carries a garbage
+	// mark (also a redundant-marked LOCK) may be gone after the first pass, so it
+	// stops counting as certain protection for the later passes of this action.
+	for _, m := range w.objs {
+		if m.forced {
+			m.gcSince = true // the pass removes whatever carries a garbage mark
+		}
+	}
 	for k, m := range w.objs {
 		if !m.present {
 			continue
@@ -815,6 +880,9 @@ func (w *world) invariants() {
 				continue
 			}
 			w.labels["protected-present-checked"] = true
+			if w.onlyRedundantLocks(k) {
+				w.labels["protected-by-redundant-marked-lock"] = true
+			}
 			if expired(m.spec.Exp, w.metaEpoch) {
 				w.labels["protected-while-expired"] = true
 			}
